@@ -508,8 +508,9 @@ type haNode struct {
 	downSince time.Duration
 	restartAt time.Duration
 	frozen    bool
+	crashing  atomic.Int32
 
-	delivered map[crypto.Digest]struct{} // per incarnation: network-level de-duplication of identical messages
+	delivered map[crypto.Digest]time.Duration // per incarnation: when a byte-identical message was last delivered
 }
 
 func (n *haNode) live() *haInc {
@@ -749,7 +750,7 @@ func (cl *haCluster) startInc(n *haNode, raw []byte, hasRaw bool) *haInc {
 	n.cur = nil
 	n.timers = map[TimeoutType]*haTimer{}
 	n.clockMu.Unlock()
-	n.delivered = map[crypto.Digest]struct{}{}
+	n.delivered = map[crypto.Digest]time.Duration{}
 	n.incMu.Lock()
 	n.cur_ = inc
 	n.incMu.Unlock()
@@ -812,10 +813,19 @@ func haReadCrashRow(acc db.Accessor) (raw []byte, ok bool, err error) {
 // crash abandons incarnation inc at hook point `hook`: from now on everything it does is discarded.
 // The durable state (crash DB row) is captured at this instant and the node restarts on it later.
 func (cl *haCluster) crash(inc *haInc, hook string, hit int) bool {
+	n := inc.node
+	// the crash procedure (freeze the incarnation, snapshot, bookkeeping) must be atomic for the scheduler:
+	// while it runs the cluster does not count as quiescent and the node is not restartable
+	n.crashing.Add(1)
+	defer func() {
+		n.crashing.Add(-1)
+		cl.qmu.Lock()
+		cl.qcond.Broadcast()
+		cl.qmu.Unlock()
+	}()
 	if !inc.dead.CompareAndSwap(false, true) {
 		return false
 	}
-	n := inc.node
 	raw, ok, err := haReadCrashRow(inc.crashDB)
 	if err != nil {
 		cl.fail("snapshot crash db: %v", err)
@@ -835,10 +845,6 @@ func (cl *haCluster) crash(inc *haInc, hook string, hit int) bool {
 	nSnap := haSnap{raw: raw, ok: ok}
 	n.incMu.Unlock()
 	cl.setSnap(n, nSnap)
-	// wake the scheduler (the dead incarnation no longer counts for quiescence)
-	cl.qmu.Lock()
-	cl.qcond.Broadcast()
-	cl.qmu.Unlock()
 	// shut the abandoned service down in the background so that its goroutines go away
 	go func() {
 		defer func() { recover() }()
@@ -1073,6 +1079,9 @@ func haHealDB(acc db.Accessor) {
 // quiet reports whether every live incarnation is blocked in its demux with nothing in flight.
 func (cl *haCluster) quietLocked() bool {
 	for _, n := range cl.nodes {
+		if n.crashing.Load() != 0 {
+			return false
+		}
 		inc := n.live()
 		if inc == nil {
 			continue
@@ -1164,19 +1173,23 @@ func (cl *haCluster) drainOutbox() []*haWire {
 }
 
 // deliver hands one message to the live incarnation of dst (lost if the node is down).
-// dup=false applies the network-level de-duplication of byte-identical messages that the real
-// gossip network performs; dup=true forces delivery of a duplicate.
-func (cl *haCluster) deliver(dst int, src int, tag protocol.Tag, data []byte, dup bool) bool {
+// During the asynchronous phase (dedup=true) byte-identical copies reaching a node within one virtual second
+// (the relays of one broadcast by the other nodes) are collapsed into one delivery, which is a legal
+// loss and keeps the message count linear; later re-broadcasts of the same bytes (partition recovery) get
+// through. dup=true forces delivery of a duplicate. In the synchronous tail nothing is suppressed.
+func (cl *haCluster) deliver(dst int, src int, tag protocol.Tag, data []byte, dup bool, dedup bool) bool {
 	n := cl.nodes[dst]
 	inc := n.live()
 	if inc == nil {
 		return false
 	}
-	h := crypto.Hash(append([]byte(tag), data...))
-	if _, seen := n.delivered[h]; seen && !dup {
-		return false
+	if dedup {
+		h := crypto.Hash(append([]byte(tag), data...))
+		if at, seen := n.delivered[h]; seen && !dup && cl.Now()-at < time.Second {
+			return false
+		}
+		n.delivered[h] = cl.Now()
 	}
-	n.delivered[h] = struct{}{}
 	// the tokenizer drops undecodable input without telling the coservice monitor; pre-check so that the
 	// quiescence accounting stays exact
 	if !haDecodable(tag, data) {
